@@ -362,7 +362,8 @@ theorem fill_ok {cfg : Config} {L n : Nat} (hcfg : cfg.l1DLineSize = L) (hL : 0 
     {u : Mmu} {mem flat : List Byte} (hw : DWf L n u.l1d) (hc : Coh u.l1d.lines mem flat)
     (a0 : Word) (h0 : 0 ≤ a0.toInt) (hmiss : ∀ y ∈ u.l1d.lines, y.covers a0.toInt = false) :
     ∃ line u' mem', fetchCacheLine cfg mem a0 = .ok line ∧ pushLineToL1D cfg u mem a0 line = .ok (u', mem') ∧
-      u'.l1i = u.l1i ∧ DWf L n u'.l1d ∧ Coh u'.l1d.lines mem' flat ∧ ∃ l ∈ u'.l1d.lines, l.lo = base L a0.toInt := by
+      u'.l1i = u.l1i ∧ DWf L n u'.l1d ∧ Coh u'.l1d.lines mem' flat ∧ (∃ l ∈ u'.l1d.lines, l.lo = base L a0.toInt) ∧
+      (∀ y ∈ u'.l1d.lines, y ∈ u.l1d.lines ∨ y.lo = base L a0.toInt) := by
   obtain ⟨hb0, hb1, hb2, hb3⟩ := base_spec L a0.toInt (by omega) h0
   generalize hbdef : base (L : Int) a0.toInt = b at hb0 hb1 hb2 hb3
   have hfetch := fetchCacheLine_ok cfg L hcfg hL mem a0 h0
@@ -440,7 +441,7 @@ theorem fill_ok {cfg : Config} {L n : Nat} (hcfg : cfg.l1DLineSize = L) (hL : 0 
       simp only [Int.sub_self, Int.toNat_zero, List.getElem?_eq_getElem hpos]
       rfl
     obtain ⟨mem', hwb, _, _⟩ := writeToMemory_spec mem x.lo x.data hevwf.nonneg
-    refine ⟨{ u with l1d := { u.l1d with lines := pre ++ post } }, mem', hfetch, ?_, rfl, ?_, ?_, ?_⟩
+    refine ⟨{ u with l1d := { u.l1d with lines := pre ++ post } }, mem', hfetch, ?_, rfl, ?_, ?_, ?_, ?_⟩
     · have hlast' : (LineCache.newLine u.l1d b line :: u.l1d.lines).getLast? = some x := hlast
       have hs' : splitAt x.lo (LineCache.newLine u.l1d b line :: u.l1d.lines) = some (pre, x, post) := hs
       simp only [hlast', evictCacheLine, hs', hat, hwb, bind, Except.bind]
@@ -463,11 +464,20 @@ theorem fill_ok {cfg : Config} {L n : Nat} (hcfg : cfg.l1DLineSize = L) (hL : 0 
       · rcases List.mem_cons.mp h with h | h
         · exact absurd (show x.lo = b by rw [← h]; rfl) (hfresh x hevm)
         · exact List.mem_append_right _ h
+    · intro y hy
+      have hy' : y ∈ nl :: u.l1d.lines := by rw [hsplit]; exact mem_middle hy
+      rcases List.mem_cons.mp hy' with rfl | h
+      · exact Or.inr rfl
+      · exact Or.inl h
   · -- room left
     simp only [hfull, if_false]
-    refine ⟨{ u with l1d := { u.l1d with lines := nl :: u.l1d.lines } }, mem, hfetch, rfl, rfl, ?_, hcoh1, nl, by simp, rfl⟩
-    exact { lineLength := hw.lineLength, numberOfLines := hw.numberOfLines, lines := hlines1, distinct := hdist1,
-            count := by rw [← hw.numberOfLines]; exact Nat.le_of_not_gt hfull }
+    refine ⟨{ u with l1d := { u.l1d with lines := nl :: u.l1d.lines } }, mem, hfetch, rfl, rfl, ?_, hcoh1, ⟨nl, by simp, rfl⟩, ?_⟩
+    · exact { lineLength := hw.lineLength, numberOfLines := hw.numberOfLines, lines := hlines1, distinct := hdist1,
+              count := by rw [← hw.numberOfLines]; exact Nat.le_of_not_gt hfull }
+    · intro y hy
+      rcases List.mem_cons.mp hy with rfl | h
+      · exact Or.inr rfl
+      · exact Or.inl h
 
 /-! ### the callers' contract unfolded -/
 
@@ -604,7 +614,8 @@ theorem write_cached_ok {L n : Nat} (hL : 0 < L) {u : Mmu} {mem flat : List Byte
     (hst : storeOk L flat.length e.MemoryChanges = true)
     (hres : ∃ l ∈ u.l1d.lines, ∀ p ∈ e.MemoryChanges, l.lo = base L p.1.toInt) :
     ∃ u', writeExecutionMemoryChangesToL1D u e = .ok u' ∧ u'.l1i = u.l1i ∧ DWf L n u'.l1d ∧
-      Coh u'.l1d.lines mem (applyChanges flat e.MemoryChanges) := by
+      Coh u'.l1d.lines mem (applyChanges flat e.MemoryChanges) ∧
+      (∀ y ∈ u'.l1d.lines, ∃ y0 ∈ u.l1d.lines, y0.lo = y.lo) := by
   obtain ⟨p, ps, hchs, hcons, hall⟩ := storeOk_spec hst
   obtain ⟨l, hlm, hlb⟩ := hres
   rw [hchs] at hcons hall hlb ⊢
@@ -638,7 +649,14 @@ theorem write_cached_ok {L n : Nat} (hL : 0 < L) {u : Mmu} {mem flat : List Byte
   have hflat' := applyChanges_consecutive p.1.toInt ha0 (p :: ps) 0 flat hcons (by
     simp only [List.length_cons, Int.natCast_zero, Int.add_zero]; omega)
   simp only [Int.natCast_zero, Int.add_zero] at hflat'
-  refine ⟨{ u with l1d := { u.l1d with lines := pre ++ { x with data := d' } :: post } }, ?_, rfl, ?_, ?_⟩
+  refine ⟨{ u with l1d := { u.l1d with lines := pre ++ { x with data := d' } :: post } }, ?_, rfl, ?_, ?_, ?_⟩
+  rotate_right
+  · intro y hy
+    rcases List.mem_append.mp hy with h | h
+    · exact ⟨y, by rw [hsplit]; exact List.mem_append_left _ h, rfl⟩
+    · rcases List.mem_cons.mp h with rfl | h
+      · exact ⟨x, hxm, rfl⟩
+      · exact ⟨y, by rw [hsplit]; exact List.mem_append_right _ (List.mem_cons_of_mem _ h), rfl⟩
   · unfold writeExecutionMemoryChangesToL1D
     rw [hchs, sortChanges_consecutive _ _ 0 hcons]
     simp only [writeToL1D, hwr, bind, Except.bind]
